@@ -62,3 +62,59 @@ theorem applyAll_refines {basis : Array W} (hA : AnalyzeTotal) (ms : List Move) 
       exact ih hstep.2 (hrest q hm)
 
 end Tak
+
+namespace Tak
+open Spec (abs decode)
+
+theorem abs_square_le {basis : Array W} {p : Pos} (hwf : WF basis p) : ∀ sq ∈ (abs p).squares, sq.length ≤ 64 := by
+  intro sq hsq
+  simp only [Spec.abs, List.mem_map, List.mem_range] at hsq
+  obtain ⟨j, _, rfl⟩ := hsq
+  rw [squareAt_cell, Cell.square_length (hwf.cell j)]
+  exact (hwf.cell j).h_le
+
+theorem step_place_squares {s s' : Spec.State} {x y : Int} {k : Kind} (h : Spec.step s (.place x y k) = some s') :
+    ∃ pc, s'.squares = s.squares.set (s.idx x y) [pc] := by
+  simp only [Spec.step] at h
+  generalize (if s.ply < 2 then s.toMove.flip else s.toMove) = col at h
+  split at h
+  · cases h
+  split at h
+  · cases h
+  split at h
+  · cases h
+  split at h
+  · cases h
+  cases h
+  refine ⟨⟨col, k⟩, ?_⟩
+  show List.set _ _ _ = _
+  unfold Spec.State.idx
+  rw [(decReserve_fields s col (k == .capstone)).1, (decReserve_fields s col (k == .capstone)).2.2.1]
+
+/-- placements never exceed the stack limit -/
+theorem StackLimit.place {basis : Array W} {p : Pos} (hwf : WF basis p) (m : Move) (k : Kind) (h : m.type = placeCode k) :
+    StackLimit p m := by
+  intro s' hs'
+  rw [decode_place m k h] at hs'
+  obtain ⟨pc, hpc⟩ := step_place_squares hs'
+  intro sq hsq
+  rw [hpc] at hsq
+  rcases List.mem_or_eq_of_mem_set hsq with h1 | h1
+  · exact abs_square_le hwf sq h1
+  · rw [h1]; simp
+
+/-- a sequence of placements satisfies the side conditions of `reachable_wf` -/
+theorem movesOK_places {basis : Array W} (hA : AnalyzeTotal) (ms : List Move) {p : Pos} (hwf : WF basis p)
+    (hall : ∀ m ∈ ms, ∃ k, m.type = placeCode k) : MovesOK basis p ms := by
+  induction ms generalizing p with
+  | nil => trivial
+  | cons m ms ih =>
+    obtain ⟨k, hk⟩ := hall m (by simp)
+    refine ⟨?_, StackLimit.place hwf m k hk, ?_⟩
+    · rw [hk]; cases k <;> decide
+    · intro q hq
+      have := place_refines hA hwf m k hk
+      rw [hq] at this
+      exact ih this.2 (fun m' hm' => hall m' (by simp [hm']))
+
+end Tak
